@@ -68,6 +68,11 @@ def worker_env(numba_threads=1, extra=None):
     env[GUARD] = "1"
     env["VERIF_REPO"] = REPO
     if extra:
+        extra = dict(extra)
+        suffix = extra.pop("NUMBA_CACHE_DIR_SUFFIX", None)
+        if suffix:
+            # e.g. NUMBA_BOUNDSCHECK changes code generation: keep those objects in their own cache
+            env["NUMBA_CACHE_DIR"] = env["NUMBA_CACHE_DIR"] + "-" + suffix
         env.update(extra)
     return env
 
